@@ -47,6 +47,20 @@ Fixpoint hist (ops : list hop) (sp : spectrum) : list string :=
   end.
 Definition run_hist (sp : spectrum) (ops : list hop) : string := join ";" (hist ops sp).
 
+(* the same history, every step replayed from the state the implementation was in before it (no growth of
+   the exact numerals: this is the bulk form); channels are (index into a table of (f, sw, baud), p, s, a, n) *)
+Definition tch (tb : list (Q * Q * Q)) (i : Z) (p s a n : Q) : chan :=
+  match nth_error tb (Z.to_nat i) with
+  | Some (f, sw, br) => mkC f sw br p s a n
+  | None => mkC 0 0 0 p s a n
+  end.
+Definition hstep0 (h : hop) (sp : spectrum) : res spectrum :=
+  match h with HS o => sstep o sp | _ => hstep h sp end.
+Definition step1 (x : spectrum * hop) : string :=
+  let (sp, h) := x in
+  append (bs (hwf h sp)) (res_s (hstep0 h sp)).
+Definition run_steps (l : list (spectrum * hop)) : string := join ";" (map step1 l).
+
 (* ---- one element of a path, replayed from the snapshot taken before it ---- *)
 (*  <program is an instance of the kind's program><side conditions hold>#<state after>  *)
 Definition run_elem (k : ekind) (e : eprog) (sp : spectrum) : string :=
